@@ -295,7 +295,7 @@ class C13(Prop):
             real_v = _dt.datetime.now(v.tzinfo)
         else:
             fake_v, real_v = fake.replace(tzinfo=v.tzinfo), _dt.datetime.now().replace(tzinfo=v.tzinfo)
-        slack = _dt.timedelta(milliseconds=200)
+        slack = _dt.timedelta(seconds=5)          # generous: a descheduled process must not look like a shifted default
         if abs(v - fake_v) < slack:
             return fake_v
         d = v - real_v
